@@ -255,9 +255,51 @@ COMPONENTS = ("valid", "exc", "log", "boot", "chan", "chan_c", "usage", "usage_c
               "subs", "conns", "now", "next_due", "boot_time")
 
 
+def _mask_absent(rows_i, rows_m):
+    """a private per-connection attribute the implementation no longer has (renamed or dropped by a refactoring:
+    world.graph reports it as "absent") is not compared -- what it stood for shows in the frames"""
+    if not any("absent" in r or hx_absent(r) for r in rows_i):
+        return rows_i, rows_m
+    bym = {r[0]: r for r in rows_m}
+    oi, om = [], []
+    for r in rows_i:
+        m = bym.get(r[0])
+        if m is None or len(m) != len(r):
+            oi.append(r)
+            continue
+        keep = [j for j, v in enumerate(r) if not _is_absent(v)]
+        oi.append([r[j] for j in keep])
+        om.append([m[j] for j in keep])
+    seen = set(r[0] for r in rows_i)
+    om += [r for r in rows_m if r[0] not in seen]
+    return oi, sorted(om, key=lambda r: r[0])
+
+
+_ABSENT_HEX = "616273656e74"     # hx("absent")
+
+
+def _is_absent(v):
+    return v == "absent" or v == _ABSENT_HEX
+
+
+def hx_absent(r):
+    return any(_is_absent(v) for v in r)
+
+
 def diff(ci, cm):
     """components on which two canonical observations differ"""
-    return [k for k in COMPONENTS if ci[k] != cm[k]]
+    out = []
+    for k in COMPONENTS:
+        a, b = ci[k], cm[k]
+        if k == "conns" and a != b:
+            if any(len(r) == 2 and r[1] == "unreadable" for r in a):
+                continue
+            a, b = _mask_absent(a, b)
+        if k == "subs" and a and a[0] and a[0][0] == "unreadable":
+            continue
+        if a != b:
+            out.append(k)
+    return out
 
 
 def frames_of(log):
